@@ -14,7 +14,7 @@ RULE = ("real Router with recording devices (one of them a real generated Driver
         "length <= 60 in a 5x5 universe, and seeded RE-ENTRANT histories in which 1..3 endpoints send a message of their own from inside "
         "their delivery callback (each at most once per operation, never a state-changing message, so the expected multiset is the "
         "closure computed by the model whatever the router's iteration order). This check judges client-originated messages: exactly-once to accepting devices, none "
-        "to others, never back to the sender, no device-bound kind to any client. non-trivial = every compared operation; "
+        "to others, never back to the sender, no device-bound kind to any client. A third universe has device names that differ in padding, case or inner blanks only (Cam, \"Cam \", \" Cam\", cam, \"Cam 2\"), two of them real drivers. non-trivial = every compared operation; "
         "distinct = hash(model state [and path, when reached by a non-shortest path], operation)")
 ASSUMPTIONS = ["which clients the getProperties relay reaches is decided by C05",
                "enableBLOB from an unregistered sender is outside the quantifier"]
